@@ -123,6 +123,10 @@ def cases(E):
     cs.append(Case("vf.contracts.c_writers.sfc_write_block_contract", "any block", C11.shape_sfc, target=["a816.writers.SFCWriter.write_block"]))
     for copier in (False, True):
         cs.append(Case("vf.contracts.c_writers.ips_header_contract", f"copier_header={copier}", C11.shape(copier), target=["a816.writers.IPSWriter.write_block_header"]))
+        # the patch equals the in-memory blocks applied in write order: repeated / rewritten regions stay separate records (the last write wins when applied)
+        cs.append(Case("vf.contracts.c_writers.ips_sequence_contract", f"A at X, B at Y, A at X again, C at X; copier_header={copier}", C11.shape_sequence(copier),
+                       target=["a816.writers.IPSWriter.__init__", "a816.writers.IPSWriter.write_block"], no_loop_specs=True))
+        cs.append(Case("vf.contracts.c_writers.ips_write_block_exact_contract", f"copier_header={copier}", C11.shape(copier), target=["a816.writers.IPSWriter.write_block"], no_loop_specs=True))
     return cs
 
 
